@@ -121,4 +121,67 @@ Lemma dec_sMZ : forall i e l, wf (sMZgate K i e) -> decomp (sMZgate K i e) = Som
 Proof.
   intros [ci si zi] [ce se ze] l W H. injection H as <-. open_all. split_eq; ring.
 Qed.
+
+Lemma dec_S2 : forall r phi l, decomp (S2gate K r phi) = Some l -> sem_seq (map doc_cmd l) = doc (S2gate K r phi).
+Proof.
+  intros [ch sh hz] [c s z] l H. injection H as <-. open_all. split_eq;
+  match goal with |- ?L = ?R => transitivity ((rt * rt + rt * rt) * R); [ring | rewrite Hrt; ring] end.
+Qed.
+
+Lemma dec_P : forall s wr wth wphi l, wf (Pgate K s wr wth wphi) -> decomp (Pgate K s wr wth wphi) = Some l ->
+  sem_seq (map doc_cmd l) = doc (Pgate K s wr wth wphi).
+Proof.
+  intros [s rz] [ch sh hz] [ct st zt] [cp sp zp] l W H. injection H as <-.
+  wf_red W. destruct W as (_ & (_ & A & _ & E1 & E2 & E3 & E4 & _) & _).
+  apply circ_mon in A. open_all. split_eq;
+  first [ ring [A E1 E2 E3 E4]
+        | match goal with |- ?L = ?R => transitivity ((rt * rt + rt * rt) * R); [ring [A E1 E2 E3 E4] | rewrite Hrt; ring] end ].
+Qed.
+
+Lemma cx_core : forall c s em ep sv : K,
+  c * c + s * s = 1 -> sv = em - ep -> (c * s) * (em + ep) = - (1) -> (s * s) * (em + ep) = ep ->
+  mmul K (m_bs K (- s) c 1 0)
+    (mmul K (mmul K (swapm K) (mmul K (one K ep 0 0 em) (swapm K)))
+       (mmul K (one K em 0 0 ep) (m_bs K c s 1 0))) = m_cx K sv.
+Proof.
+  intros c s em ep sv H1 -> H2 H3.
+  assert (H1' : c * c = 1 - s * s) by (apply circ_mon; exact H1).
+  assert (H2' : c * s * ep = - (1) - c * s * em) by (rewrite <- H2; ring).
+  assert (H3' : s * s * ep = ep - s * s * em).
+  { transitivity ((s * s) * (em + ep) - s * s * em); [ring | rewrite H3; ring]. }
+  open_all. split_eq; ring [H1' H2' H3'].
+Qed.
+
+Lemma dec_CX : forall s wr wth l, wf (CXgate K s wr wth) -> decomp (CXgate K s wr wth) = Some l ->
+  sem_seq (map doc_cmd l) = doc (CXgate K s wr wth).
+Proof.
+  intros [s rz] [ch sh hz] [c s_ z] l W H. injection H as <-.
+  wf_red W. destruct W as (_ & (_ & A & E1 & E2 & E3 & _) & _).
+  transitivity (a_lin K (mmul K (m_bs K (- s_) c 1 0)
+    (mmul K (mmul K (swapm K) (mmul K (one K (ch + sh) 0 0 (ch - sh)) (swapm K)))
+       (mmul K (one K (ch - sh) 0 0 (ch + sh)) (m_bs K c s_ 1 0))))).
+  - open_all. split_eq; ring.
+  - rewrite (cx_core c s_ (ch - sh) (ch + sh) s A E1 E2 E3). reflexivity.
+Qed.
+
+Lemma dec_CZ : forall s wr wth l, decomp (CZgate K s wr wth) = Some l ->
+  sem_seq (map doc_cmd l) = doc (CZgate K s wr wth).
+Proof.
+  intros [s rz] [ch sh hz] [c s_ z] l H. injection H as <-. open_all. split_eq; ring.
+Qed.
+
+Theorem decomp_sound : forall g l, wf g -> decomp g = Some l -> sem_seq (map doc_cmd l) = doc g.
+Proof.
+  intros g l W H. destruct g; try discriminate H.
+  - apply dec_X; assumption.
+  - apply dec_Z; assumption.
+  - apply dec_P; assumption.
+  - apply dec_MZ; assumption.
+  - apply dec_sMZ; assumption.
+  - apply dec_S2; assumption.
+  - apply dec_CX; assumption.
+  - apply dec_CZ; assumption.
+  - apply dec_F; assumption.
+Qed.
+
 End Gate.
